@@ -12,6 +12,7 @@ A family / call is plain JSON data (so that replays and the corpus are self-cont
   a parameter is [name, kind, default] or [name, kind, default, alias] (explicit alias=...)
   a layer may be a MultiContext / LinkedContext: "shape": "plain"|"multi"|"linked"|"linked-multi" and
   "members": [[fid, ...], ...] (which member context holds which overloads, in member order)
+  a fun may carry "decl": [name, ...] - the order in which its parameters are declared (= order of its parameter table)
   a fun may carry "history": [op, ...]: what else happened to the decorated python callable / to definitions
   derived from it through the public FunctionDefinition API before ("pre_*") and after ("post_*") the
   definition under test was derived - none of it may change how that definition resolves
@@ -278,6 +279,9 @@ def make_function(fun, census=None, history=True):
         decl.append((fun["star"][0], fun["star"][1], None))
     if fun["starstar"]:
         decl.append((fun["starstar"][0], fun["starstar"][1], None))
+    if fun.get("decl"):            # order in which the @specs.parameter decorators are applied = order of the parameter table
+        rank = {n: i for i, n in enumerate(fun["decl"])}
+        decl.sort(key=lambda d: rank.get(d[0], len(rank)))
     for name, kind, alias in decl:
         t = kind_type(kind)
         if t is not None or (alias and kind != ["H"]):
@@ -754,7 +758,12 @@ def gen_fun(rng, fid, shape):
         if first[1][0] in ("L", "E", "M"):
             first[1] = ["T", rng.choice(RELATED), False]
     nokw = rng.random() < shape["pnokw"]
-    return {"fid": fid, "pos": pos, "star": star, "kwonly": kwonly, "starstar": starstar, "kind": kind, "nokw": nokw}
+    fun = {"fid": fid, "pos": pos, "star": star, "kwonly": kwonly, "starstar": starstar, "kind": kind, "nokw": nokw}
+    if rng.random() < 0.6:
+        names = [q[0] for q in pos + kwonly]
+        rng.shuffle(names)
+        fun["decl"] = names
+    return fun
 
 
 def add_shapes(rng, chain, p_multi=0.3, p_hist=0.25):
@@ -1225,7 +1234,8 @@ def gen_family_dense(rng):
             kwonly = [[kwname, ["T", rng.choice([0, 1, 2, 3, 4]), True], "null"]] if use_kw and rng.random() < 0.7 else []
             funs.append({"fid": fid, "pos": pos, "star": ["rest", ["T", rng.choice([0, 2, 3, 4]), True]] if rng.random() < 0.1 else None,
                          "kwonly": kwonly, "starstar": None, "kind": rng.choice(["function", "function", "extension"]),
-                         "nokw": (rng.random() < 0.5) if mixed_nokw else False})
+                         "nokw": (rng.random() < 0.5) if mixed_nokw else False,
+                         "decl": rng.sample([q[0] for q in pos + kwonly], len(pos) + len(kwonly))})
             fid += 1
         chain.append({"excl": rng.random() < (0.3 if li < nlayers - 1 else 0.1), "funs": funs})
     mark_exclusive(rng, chain)
@@ -1238,18 +1248,23 @@ def gen_call_dense(rng, family):
     ids = itertools.count(1)
     args = []
     narrow = rng.random() < 0.25             # values only the widest types accept: inner layers often have no match
-    for _ in range(nvis if rng.random() < 0.85 else rng.randrange(nvis + 1)):
+    npos = nvis if rng.random() < 0.85 else rng.randrange(nvis + 1)
+    by_keyword = rng.randrange(npos + 1) if rng.random() < 0.35 else npos      # from this slot on: name => value
+    for i in range(npos):
         if narrow:
             v = rng.choice([["obj", 6], ["obj", 1], ["int", 1], ["obj", 2], ["obj", 3]])
         else:
             v = rng.choice([["obj", 5], ["obj", 4], ["obj", 8], ["obj", 8], ["obj", 8], ["obj", 2], ["obj", 3], ["obj", 7], "null"])
-        args.append(["expr", next(ids), v] if rng.random() < 0.8 else ["const", v])
+        if i >= by_keyword:
+            args.append(["mape", camel(VIS_NAMES[i]), next(ids), v])
+        else:
+            args.append(["expr", next(ids), v] if rng.random() < 0.8 else ["const", v])
     kwname = camel(family.get("kwname", "k"))
     if rng.random() < 0.25:
         args.append(["mape", kwname, next(ids), rng.choice([["obj", 4], ["obj", 5], "null"])])
     kwargs = [[kwname, ["obj", 4]]] if rng.random() < 0.08 and not any(a[0] == "mape" for a in args) else []
     recv = None
-    if rng.random() < 0.2 and args and args[0][0] == "expr":
+    if rng.random() < 0.2 and args and args[0][0] == "expr" and by_keyword == npos:
         recv = args[0][2]
         args = args[1:]
     return {"recv": recv, "args": args, "kwargs": kwargs}
